@@ -53,6 +53,10 @@ pub struct SpawnSpec {
     /// stream" mean the parent's stream as it is at the time of the spawn
     #[serde(default)]
     pub repoint_before: Option<u8>,
+    /// what is started is a clone() / try_clone() of the configured command (the original is
+    /// dropped unused): a clone is an equivalent command, identity and process group included
+    #[serde(default)]
+    pub via_clone: bool,
 }
 
 impl Default for SpawnSpec {
@@ -73,6 +77,7 @@ impl Default for SpawnSpec {
             via_exec: false,
             sigpipe_probe: false,
             repoint_before: None,
+            via_clone: false,
         }
     }
 }
@@ -367,6 +372,7 @@ fn do_spawn(plan: &Plan, spec: &SpawnSpec, si: usize, pool: &Pool, boot: &[Optio
             Redirection::None => ex,
             r => ex.stderr(r),
         };
+        let ex = if spec.via_clone { ex.clone() } else { ex };
         lib("Exec::popen", move || ex.popen())
     } else {
         let cfg = PopenConfig {
@@ -382,6 +388,7 @@ fn do_spawn(plan: &Plan, spec: &SpawnSpec, si: usize, pool: &Pool, boot: &[Optio
             setpgid: spec.setpgid,
             ..Default::default()
         };
+        let cfg = if spec.via_clone { cfg.try_clone().expect("PopenConfig::try_clone") } else { cfg };
         lib("Popen::create", move || Popen::create(&argv, cfg))
     };
     let forked = sim().k.last_fork_of_thread[t as usize].is_some();
@@ -1341,6 +1348,7 @@ pub fn generate(prop: &str, rng: &mut Rng, plan: &mut Plan, index: u64) {
                     }
                 }
                 spec.via_exec = spec.executable.is_none() && !spec.setpgid && rng.chance(1, 3);
+                spec.via_clone = rng.chance(1, 5);
                 gen_streams(rng, &mut spec, false);
                 sp.spawns.push(spec);
             }
@@ -1559,8 +1567,17 @@ pub fn generate(prop: &str, rng: &mut Rng, plan: &mut Plan, index: u64) {
             let mut spec = SpawnSpec::default();
             match rng.below(8) {
                 0 => {
-                    // a name with a slash: relative to the child's cwd
-                    plan.fs.push(FsEntry { path: format!("/work/sub/{}", cmd), node: Node::Exe { prog: 0 }, raw: None });
+                    // a name with a slash: relative to the child's cwd - not to the parent's, where a
+                    // file of the same name may sit as well (or only there: then nothing can be started)
+                    let variant = rng.below(4);
+                    if variant != 3 {
+                        plan.fs.push(FsEntry { path: format!("/work/sub/{}", cmd), node: Node::Exe { prog: 0 }, raw: None });
+                    }
+                    if variant >= 2 {
+                        let id = plan.programs.len();
+                        plan.programs.push(vec![Op::Exit { code: 98 }]);
+                        plan.fs.push(FsEntry { path: format!("/work/{}", cmd), node: Node::Exe { prog: id }, raw: None });
+                    }
                     spec.argv[0] = format!("./{}", cmd).into_bytes();
                     spec.cwd = Some(b"/work/sub".to_vec());
                 }
@@ -1585,6 +1602,11 @@ pub fn generate(prop: &str, rng: &mut Rng, plan: &mut Plan, index: u64) {
                         _ => {
                             // executable with a slash (no search, relative to the child's cwd), bare argv[0]
                             plan.fs.push(FsEntry { path: format!("/work/sub/{}", cmd), node: Node::Exe { prog: 0 }, raw: None });
+                            if rng.chance(1, 2) {
+                                let id = plan.programs.len();
+                                plan.programs.push(vec![Op::Exit { code: 98 }]);
+                                plan.fs.push(FsEntry { path: format!("/work/{}", cmd), node: Node::Exe { prog: id }, raw: None });
+                            }
                             spec.executable = Some(format!("./{}", cmd).into_bytes());
                             spec.argv[0] = b"shown".to_vec();
                             spec.cwd = Some(b"/work/sub".to_vec());
